@@ -170,6 +170,16 @@ def op_case(c, ctx, rng, kind, judge_status):
         obj = obj + dot(sr.mk(pr.c[n1:]), x2)
     rng.shuffle(cons)
     prob = op(obj, cons)
+    if rng.random() < 0.6:
+        # values left behind by an earlier solve of the same objects: solve() must replace them (by the certificate
+        # resp. by None), not leave them
+        from cvxopt import matrix as _mx
+        x1.value = _mx(7.7e7, (n1, 1))
+        if x2 is not None:
+            x2.value = _mx(7.7e7, (n - n1, 1))
+        for cn_ in cons:
+            cn_.multiplier.value = _mx(7.7e7, (len(cn_), 1))
+        ctx.count("op.stale-values-before-solve")
     saved = dict(solvers.options)
     solvers.options.clear(); solvers.options["show_progress"] = False
     try:
